@@ -90,3 +90,8 @@ claim("C15", "DESIGN.md 5 C15",
       "Fault enumeration on histories: for every frame-A shape (12 H264 shapes mixing single / STAP-A / FU-A trains, 8 AV1 OBU sequences fragmented by the real payloader into Z/Y chains; up to 10 packets) ALL 2^n loss subsets are delivered in order to one depacketizer, preceded by every sequence of 0-2 strings of an 8-string garbage corpus, followed by an intact frame B (5 H264 / 4 AV1 shapes covering every form of first packet); the output of every packet of B must equal that of a fresh depacketizer, byte for byte. H264 in Annex-B and AVC mode.",
       "Frame shapes and the garbage corpus are fixed lists (stated in the evidence); reordering and duplication are outside the bound.",
       "exhaustive enumeration of loss subsets and garbage prefixes with a fresh-twin differential oracle (explicit choice-tree DFS on the real code)")
+
+claim("C08", "DESIGN.md 5 C08",
+      "For 13 payloader configurations: every byte string up to 5 (quick) / 6 (thorough) bytes over an 8-symbol codec alphabet x every MTU 0..12; a structured corpus per codec (30-60 inputs from the reference writers incl. malformed ones) x EVERY MTU 0..40 and 10 larger ones; and every history of up to 3 calls on one instance over 12 MTUs. Every call runs on an instance whose input buffer is overwritten right after Payload returns and on a twin fed pristine copies: no panic, every fragment 1..MTU bytes (Opus: the input as one fragment), caller buffer unchanged, fragments do not share memory with the input (by address), fragments returned earlier never change (checked after every later call and overwrite), and the twin produces identical output at every step.",
+      "Corpora and alphabets are fixed lists stated in the evidence; VP9 uses a fixed InitialPictureIDFn so that the twins agree.",
+      "bounded exhaustive enumeration of inputs, MTUs and call histories with an overwrite-twin differential oracle (explicit choice-tree DFS on the real code)")
